@@ -25,6 +25,7 @@ Verdict(b) == CASE b = "call_ok"     -> [doc |-> "result",   codes |-> "zero",  
                 [] b = "batch_mixed" -> [doc |-> "array",    codes |-> "error", execs |-> 2]
                 [] b = "batch_notif" -> [doc |-> "nothing",  codes |-> "none",  execs |-> 2]
                 [] b = "unknown"     -> [doc |-> "error",    codes |-> "error", execs |-> 0]
+                [] b = "badparams"   -> [doc |-> "error",    codes |-> "error", execs |-> 0]   \* the parameters do not bind: -32602
                 [] b = "invalid"     -> [doc |-> "error",    codes |-> "error", execs |-> 0]
                 [] b = "notjson"     -> [doc |-> "error",    codes |-> "error", execs |-> 0]
                 [] b = "non_utf8"    -> [doc |-> "dontcare", codes |-> "error", execs |-> 0]
